@@ -1341,7 +1341,7 @@ func c08Gen(r *verifh.Rng) []verifh.Section {
 				// round 4: YAML / TOML front ends (fs=1: WithStringValues handed on as an option)
 				"uy key=json fs=0 fa=0 T { A int t:a,range=[1:5] B f64 t:b,optional C { X str t:x,options=foo|bar } t:c D [] int t:d,optional } I { a n:5 b n:1e2 c { x s:foo } d [ n:1 null n:3 ] }",
 				"uy key=json fs=0 fa=0 T { A int t:a,range=[1:5] } I { a n:6 }",
-				// open defect (Props.yaml_null_witness): a YAML null reaches the unmarshaller as the empty string
+				// domain restriction (Props.yaml_null_witness): a YAML null reaches the unmarshaller as the empty string
 				"uy key=json fs=0 fa=0 T { A int t:a,optional B str t:b } I { a null b s:x }",
 				"u key=json fs=0 fa=0 T { A int t:a,optional B str t:b } I { a null b s:x }",
 				"ut key=json fs=0 fa=0 T { A int t:a,range=[1:5] B f64 t:b,optional C { X str t:x,options=foo|bar } t:c M map int t:m } I { a n:5 b n:2.5 c { x s:foo } m { k n:1 j n:2 } }",
@@ -1405,8 +1405,8 @@ func c08Gen(r *verifh.Rng) []verifh.Section {
 			}
 		}
 		if i == 0 {
-			// open defect (Props.structRequiredCache_witness): `form` first caches "the nested struct needs a value" for the
-			// type, the `json` unmarshaler then refuses {} although every field is optional under `json`
+			// fixed in a8b007f (Props.structRequiredCache_witness): before, `form` first cached "the nested struct needs a value"
+			// for the type and the `json` unmarshaler then refused {} although every field is optional under `json`
 			ops = append(ops,
 				"um key=form fs=0 fa=0 T { In { A int t:a,optional } t:in } I { }",
 				"um key=json fs=0 fa=0 T { In { A int t:a,optional } t:in } I { }",
